@@ -156,3 +156,18 @@ macro_rules! panic_harness {
         }
     };
 }
+
+/// A harness with `#[kani::stub(..)]` replacements (needs -Z stubbing); natively the real functions run.
+#[macro_export]
+macro_rules! harness_stub {
+    ($name:ident, $unw:expr, [$($stub:meta),*], $body:block) => {
+        #[cfg_attr(kani, kani::proof)]
+        #[cfg_attr(kani, kani::unwind($unw))]
+        $(#[cfg_attr(kani, $stub)])*
+        #[cfg_attr(not(kani), test)]
+        pub fn $name() {
+            $body;
+            $crate::reach!(true, "end");
+        }
+    };
+}
